@@ -80,7 +80,11 @@ def select(reg, prop, tier, seed):
         t = r["props"].get(prop)
         if t is None:
             continue
-        if r.get("sampled"):
+        # C20 thorough = C20's own harnesses + a VERIF_SEED-selected sample of every other property's harnesses (each
+        # of which carries Kani's panic / overflow / bounds / pointer checks and the unwinding assertions); the whole
+        # union (~230 harnesses) is what the other properties' own thorough checks run
+        foreign = prop == "C20" and t == "thorough" and not r["fn"].startswith("c20_")
+        if r.get("sampled") or foreign:
             if tier == "thorough":
                 sampled.append(r)
             continue
@@ -101,6 +105,26 @@ _MEM = {"kb": MEM_LIMIT_KB}
 
 def limit_mem():
     resource.setrlimit(resource.RLIMIT_AS, (_MEM["kb"] * 1024, _MEM["kb"] * 1024))
+
+
+def limit_cbmc_children(target_dir, lim_kb, done):
+    for pid in os.listdir("/proc"):
+        if not pid.isdigit() or pid in done:
+            continue
+        try:
+            with open(f"/proc/{pid}/cmdline", "rb") as f:
+                cl = f.read().split(b"\0")
+        except OSError:
+            continue
+        if not cl or os.path.basename(cl[0]) not in (b"cbmc", b"goto-instrument"):
+            continue
+        if not any(target_dir.encode() in a for a in cl):
+            continue
+        try:
+            resource.prlimit(int(pid), resource.RLIMIT_AS, (lim_kb * 1024, lim_kb * 1024))
+            done.add(pid)
+        except (OSError, ValueError):
+            pass
 
 
 class Lock:
@@ -144,14 +168,17 @@ def run_kani(harnesses, timeout_s, tag, jobs=None, playback=False):
         j = max(1, min(j, len(harnesses)))
         cmd += ["-j", str(j), "--output-format", "terse"]
     t0 = time.time()
-    saved = _MEM["kb"]
-    if playback:
-        _MEM["kb"] = max(saved, PLAYBACK_MEM_KB)
-    try:
-        with open(out_log, "w") as lf:
-            p = subprocess.run(cmd, cwd=HARNESS, env=ENV, stdout=lf, stderr=subprocess.STDOUT, preexec_fn=limit_mem)
-    finally:
-        _MEM["kb"] = saved
+    # The address-space limit is put on the CBMC processes only (found by their goto-binary path under this run's
+    # target directory, limited with prlimit as soon as they appear): a limit inherited from the top would also hit
+    # kani-driver itself, which holds every harness' CBMC output in memory and died of it with `-j 8` (measured:
+    # "memory allocation of 2319 bytes failed", all verdicts of the batch lost).
+    lim_kb = max(_MEM["kb"], PLAYBACK_MEM_KB) if playback else _MEM["kb"]
+    with open(out_log, "w") as lf:
+        p = subprocess.Popen(cmd, cwd=HARNESS, env=ENV, stdout=lf, stderr=subprocess.STDOUT)
+        limited = set()
+        while p.poll() is None:
+            limit_cbmc_children(KANI_TARGET, lim_kb, limited)
+            time.sleep(0.3)
     wall = time.time() - t0
     raw = open(out_log, errors="replace").read()
     results = parse_results(harnesses, out_json, raw)
